@@ -65,8 +65,11 @@ def judge(ctx, vh, hists, files, name, stride=1):
 
 
 def report(ctx, hists, findings):
-    broken = set()   # histories with a C12 flag: later Model.Mismatch after a swap is a consequence
+    """A history that shows any C12 violation is reported as such; a disagreement between the GraphEdit model and the
+    real editor (Model.Mismatch) in a history WITHOUT a C12 violation is an infrastructure failure (the model is
+    the vacuity guard, not the property)."""
     findings.sort(key=lambda x: (x[0].get("h", -1), x[0].get("i", 0)))
+    by_hist = {}
     for ln, v in findings:
         c12 = [p for p in v["bad"] if p.startswith("C12.")]
         if ln["k"] == "file":
@@ -74,19 +77,26 @@ def report(ctx, hists, findings):
                 ctx.violation("%s/file:%s" % (p, os.path.basename(ln["file"].split(" ")[0])), "%s for graph %s" % (p, ln["file"]),
                               {"family": "graphedit", "file": ln["file"]})
             continue
-        h = ln["h"]
-        if "Model.Mismatch" in v["bad"] and h not in broken and not c12:
-            raise core.Infra("GraphEdit model and the real editor disagree at history %d step %d (%s): %s" %
-                             (h, ln["i"], ln["st"], json.dumps(ln["orig"])[:600]))
-        if c12:
-            broken.add(h)
-            maxarr = max([len(n["arr"]) for n in ln["orig"]["nodes"]] + [0])
-            types = sorted({n["type"] for n in ln["orig"]["nodes"]})
-            for p in c12:
-                sig = "%s/%s" % (p, "arr>10" if maxarr > 10 else "types:" + ",".join(map(str, types)))
-                ctx.violation(sig, "%s after step %d (%s) of a %s history (max array inputs %d)" %
-                              (p, ln["i"], ln["st"]["op"], hists[h].get("tag"), maxarr),
-                              {"family": "graphedit", "history": {"steps": hists[h]["steps"][:ln["i"] + 1]}})
+        by_hist.setdefault(ln["h"], []).append((ln, v, c12))
+    mismatch = None
+    for h, items in by_hist.items():
+        if any(c12 for _, _, c12 in items):
+            for ln, v, c12 in items:
+                if not c12:
+                    continue
+                maxarr = max([len(n["arr"]) for n in ln["orig"]["nodes"]] + [0])
+                types = sorted({n["type"] for n in ln["orig"]["nodes"]})
+                for p in c12:
+                    sig = "%s/%s" % (p, "arr>10" if maxarr > 10 else "types:" + ",".join(map(str, types)))
+                    ctx.violation(sig, "%s after step %d (%s) of a %s history (max array inputs %d) %s" %
+                                  (p, ln["i"], ln["st"]["op"], hists[h].get("tag"), maxarr, ln.get("note", "")[:120]),
+                                  {"family": "graphedit", "history": {"steps": hists[h]["steps"][:ln["i"] + 1]}})
+        elif mismatch is None:
+            ln = items[0][0]
+            mismatch = "GraphEdit model and the real editor disagree at history %d step %d (%s): %s" % (
+                h, ln["i"], ln["st"], json.dumps(ln["orig"])[:600])
+    if mismatch and not ctx.violations:
+        raise core.Infra(mismatch)
 
 
 def run(ctx):
